@@ -334,7 +334,9 @@ def gen_session(rng, i=None):
             argv += slots[t] if t in slots else [t]
         runs.append({"tool": rng.choice(["cnfgen", "cnfgen", "pbgen"]), "seed": rng.randrange(10 ** 6), "argv": argv,
                      "lib": {"f": fname, "args": [({"g": kind, "spec": slots[a]} if a in slots else a) for a in args_t], "kw": kw}})
-    return {"files": {n: SESSION_FILES[kind][n] for n in names}, "runs": runs}
+    # file size is a dimension of its own: the same content at the sizes common.file_sizes() finds (comment padding)
+    pads = [0, 0] + common.file_sizes()
+    return {"files": {n: SESSION_FILES[kind][n] for n in names}, "runs": runs, "pad": pads[i % len(pads)]}
 
 
 def run_session(info):
@@ -345,7 +347,7 @@ def run_session(info):
     try:
         for n, txt in info["files"].items():
             with open(os.path.join(tmp, n), "w") as fh:
-                fh.write(txt)
+                fh.write(common.pad_text(txt, n.rsplit(".", 1)[-1], info.get("pad", 0)))
 
         def real(tok):
             return os.path.join(tmp, tok[1:]) if tok.startswith("@") else tok
@@ -399,7 +401,7 @@ def run_session(info):
                         "session": [r["argv"] for r in info["runs"]]}
             r = compare(A, B, " ".join(shown))
             if r is not None:
-                r.update(run=i, session=[[r2["tool"]] + r2["argv"] for r2 in info["runs"]], files=info["files"],
+                r.update(run=i, session=[[r2["tool"]] + r2["argv"] for r2 in info["runs"]], files=info["files"], file_size=info.get("pad", 0),
                          library_call=lib["f"])
                 return r
         return None
@@ -418,7 +420,8 @@ def build(suite, info):
         kinds = sorted({t for r in info["runs"] for t in r["argv"] if t in SESSION_MODS})
         twice = any(sum(1 for a in r["lib"]["args"] if isinstance(a, dict)) > 1 for r in info["runs"])
         return Case(suite, split_req(full), lambda: split_impl(full), lambda: run_session(info),
-                    cls=("twice-on-a-line" if twice else "consecutive") + (":" + "+".join(kinds) if kinds else ""), info=info)
+                    cls=("twice-on-a-line" if twice else "consecutive") + (":" + "+".join(kinds) if kinds else "") +
+                    (":padded" if info.get("pad") else ""), info=info)
     if suite in ("cli_vs_lib", "chain", "k2p", "format"):
         # rebuilt by regenerating the run's cases with the recorded seed/tier and looking the argv up
         ctx = {"tier": info.get("tier", "quick"), "seed": info.get("seed", 0), "prop": "C17"}
@@ -503,7 +506,8 @@ def cases(ctx):
     try:
         path = os.path.join(tmp, "g.kthlist")
         with open(path, "w") as fh:
-            fh.write("c a dag\n4\n1 : 0\n2 : 0\n3 : 1 2 0\n4 : 2 3 0\n")
+            fh.write(common.pad_text("c a dag\n4\n1 : 0\n2 : 0\n3 : 1 2 0\n4 : 2 3 0\n", "kthlist",
+                                     rng.choice([0] + common.file_sizes())))
 
         def k2p_oracle():
             a = quiet(lambda: cli_k2p(["kthlist2pebbling", "-q", "-i", path], mode="formula"))
@@ -612,6 +616,12 @@ def cases(ctx):
         from cnfgen.graphs import readGraph
         files = {"null.dimacs": "p edge 0 0\n", "one.dimacs": "p edge 1 0\n", "k2.dimacs": "p edge 2 1\ne 1 2\n",
                  "p3.kthlist": "3\n1 : 0\n2 : 1 0\n3 : 2 0\n", "null.kthlist": "0\n"}
+        fsizes = common.file_sizes()
+        padded = {}
+        for k, (fn, txt) in enumerate(sorted(files.items())):
+            base, ext = fn.rsplit(".", 1)
+            padded["{}-padded.{}".format(base, ext)] = common.pad_text(txt, ext, fsizes[(k + seed) % len(fsizes)])
+        files.update(padded)
         for fn, txt in files.items():
             with open(os.path.join(tmp2, fn), "w") as fh:
                 fh.write(txt)
@@ -628,6 +638,13 @@ def cases(ctx):
             file_cases.append((["tiling", os.path.join(tmp2, a)], lambda a=a: cnfgen.Tiling(rg(a))))
             file_cases.append((["subgraph", "-G", os.path.join(tmp2, "p3.kthlist"), "-H", os.path.join(tmp2, a)],
                                lambda a=a: cnfgen.SubgraphFormula(rg("p3.kthlist"), rg(a), induced=False, symbreak=False)))
+        for a in sorted(padded):
+            plain = a.replace("-padded", "")
+            file_cases.append((["iso", os.path.join(tmp2, a), "-e", os.path.join(tmp2, a)],
+                               lambda a=a, plain=plain: cnfgen.GraphIsomorphism(rg(plain), rg(plain))))
+            file_cases.append((["kcolor", "2", os.path.join(tmp2, a)], lambda plain=plain: cnfgen.GraphColoringFormula(rg(plain), 2)))
+            file_cases.append((["subgraph", "-G", os.path.join(tmp2, a), "-H", os.path.join(tmp2, plain)],
+                               lambda plain=plain: cnfgen.SubgraphFormula(rg(plain), rg(plain), induced=False, symbreak=False)))
         results = []
         for argv, lib in file_cases:
             try:
@@ -646,7 +663,11 @@ def cases(ctx):
                 (["kcolor", "3", "gnp", "6", ".5", "save", "G.gml", "-T", "shuffle"], (2, 7), "simple"),
                 (["tseitin", "random", "gnd", "6", "3", "save", "G.gml"], (2, 7), "simple"),
                 (["php", "glrd", "5", "4", "2", "save", "G.kthlist", "-T", "shuffle"], (1, 7), "bipartite"),
-                (["kclique", "3", "gnm", "6", "8", "save", "G.gml", "-T", "shuffle", "-c"], (2, 7), "simple")]):
+                (["kclique", "3", "gnm", "6", "8", "save", "G.gml", "-T", "shuffle", "-c"], (2, 7), "simple"),
+                # graphs whose files take several disk blocks
+                (["kcolor", "3", "gnp", "40", ".3", "save", "G.gml", "-T", "shuffle"], (2, 7), "simple"),
+                (["tseitin", "random", "gnd", "60", "3", "save", "G.dot"], (2, 7), "simple"),
+                (["php", "glrd", "70", "40", "9", "save", "G.kthlist"], (1, 7), "bipartite")]):
             sseed = rng.randint(1, 10 ** 6)
             path = os.path.join(tmp2, "saved{}_{}".format(i, cmd[gpos[1] - 1]))
             full = list(cmd)
